@@ -8,12 +8,25 @@
 //       NumericalIssue on matrices with an exactly singular pivot block (arithmetic exact by construction),
 //       NumericalIssue only if the matrix is numerically singular (sigma_min <= C_SING n eps sigma_max),
 //       a run reported Successful has no exactly singular D block, wrappers throw invalid_argument iff info != Successful.
+//   (c) object REUSE (part "hist"): a request is a HISTORY on ONE BKLDLT object -- compute(A1,uplo1,s1); solve(b); compute(A2,uplo2,s2)
+//       (same matrix other shift: far outside the spectrum / nearby; another matrix of the same size; another size); solve(b);
+//       compute(A3,...) (back to the first arguments / far shift); solve(b) -- in double, float or complex<double>.  The model runs the
+//       same history on one model state (`hist` lines, bit exact: info, m_perm, m_permc, packed data, solution after every step);
+//       oracle: every compute on the used object gives bitwise what a FRESH object gives for the same arguments
+//       (`reuse-differs-from-fresh`) and every solve satisfies the residual predicate.
+//   (d) wrapper histories on ONE DenseSymShiftSolve object (part "whist"): set_shift(s); set_shift(s) again; [perform_op];
+//       set_shift(s_ok) (A - s_ok I strictly diagonally dominant); perform_op; set_shift(s); SymEigsShiftSolver(op, 1, 2, s); [perform_op].
+//       Graded: every set_shift / solver construction with a shift for which a fresh BKLDLT meets an exactly zero pivot throws
+//       std::invalid_argument -- the 1st, 2nd, 3rd time alike --, never throws otherwise; after a set_shift that returned normally
+//       perform_op equals the fresh solve bit for bit (hence finite whenever that is) and satisfies the residual predicate.
+//       The model (`whist` lines: Model/BKLDLT.lean DenseShift + translated guard) answers the same history.
 #include "common.h"
 #include <Eigen/Core>
 #include <Eigen/SVD>
 #include <Spectra/LinAlg/BKLDLT.h>
 #include <Spectra/MatOp/DenseSymShiftSolve.h>
 #include <Spectra/MatOp/SymShiftInvert.h>
+#include <Spectra/SymEigsShiftSolver.h>
 using namespace vh;
 typedef long double LD;
 typedef std::complex<double> CD;
@@ -54,12 +67,13 @@ static void permute_sym(Case& c, Rng& r) {
     for (int i = 0; i < n; i++) for (int j = 0; j < n; j++) { c.re[i + (size_t) j * n] = re[p[i] + (size_t) p[j] * n]; c.im[i + (size_t) j * n] = im[p[i] + (size_t) p[j] * n]; }
 }
 
-static Case gen_case(uint64_t seed, long idx, bool thorough) {
+static Case gen_case(uint64_t seed, long idx, bool thorough, int force_n = -1) {
     Rng r(seed, 10, (uint64_t) idx); Case c; c.idx = idx;
     c.kind = (int) (idx % 10);
     int n;
     if (!thorough) n = r.coin(0.5) ? r.range(1, 6) : r.range(1, 20);
     else { double u = r.unit(); n = u < 0.35 ? r.range(1, 6) : u < 0.8 ? r.range(1, 20) : r.range(21, 80); }
+    if (force_n >= 1) n = force_n;
     if (c.kind == 9) n = 0;
     c.n = n; c.re.assign((size_t) n * n, 0.0); c.im.assign((size_t) n * n, 0.0);
     switch (c.kind) {
@@ -147,6 +161,7 @@ static std::string replay_json(const Case& c, uint64_t seed, const std::string& 
 }
 
 static std::map<std::string, LD> g_max;
+static std::string fb(double x) { return std::isnan(x) ? std::string("nan") : str(dbits(x)); }
 
 template <class S> static void oracle(const Case& c, uint64_t seed, const std::string& tier, Out& out, Result<S>* keep = nullptr, int keepcfg = 0, bool keepgarb = false) {
     typedef typename Tr<S>::W W; typedef typename Tr<S>::R R;
@@ -206,6 +221,117 @@ template <class S> static void oracle(const Case& c, uint64_t seed, const std::s
     }
 }
 
+// ------------------------------------------------------------------ histories on ONE BKLDLT object (part "hist")
+template <class S> struct Enc;
+template <> struct Enc<double> { static const char* tag() { return "d"; } static std::string in(double x) { return str(dbits(x)); } static std::string out(double x) { return fb(x); }
+    static std::string real(double x) { return str(dbits(x)); } };
+template <> struct Enc<float> { static const char* tag() { return "f"; } static std::string in(float x) { return str(fbits(x)); } static std::string out(float x) { return std::isnan(x) ? std::string("nan") : str(fbits(x)); }
+    static std::string real(double x) { return str(fbits((float) x)); } };
+template <> struct Enc<CD> { static const char* tag() { return "c"; } static std::string in(CD z) { return str(dbits(z.real())) + " " + str(dbits(z.imag())); } static std::string out(CD z) { return fb(z.real()) + " " + fb(z.imag()); }
+    static std::string real(double x) { return str(dbits(x)); } };
+
+// one compute() call on the given object: the matrix of case c in configuration cfg (bit0 Upper, bit1 RowMajor), unused triangle NaN if garbage
+template <class S, int Order> static void compute_on_o(Spectra::BKLDLT<S>& f, const Case& c, int uplo, bool garbage, double shift, std::vector<S>& mem) {
+    typedef Eigen::Matrix<S, Eigen::Dynamic, Eigen::Dynamic, Order> Mat;
+    const int n = c.n; Mat M(n, n); const typename Tr<S>::R nan = std::numeric_limits<typename Tr<S>::R>::quiet_NaN();
+    for (int i = 0; i < n; i++) for (int j = 0; j < n; j++) {
+        bool used = (uplo == Eigen::Lower) ? (i >= j) : (i <= j);
+        M(i, j) = (used || !garbage) ? Tr<S>::mk(c.a(i, j), c.ai(i, j)) : Tr<S>::mk(nan, nan);
+    }
+    mem.assign(M.data(), M.data() + (size_t) n * n);
+    f.compute(M, uplo, (typename Tr<S>::R) shift);
+}
+template <class S> static void compute_on(Spectra::BKLDLT<S>& f, const Case& c, int cfg, bool garbage, double shift, std::vector<S>& mem) {
+    int uplo = (cfg & 1) ? Eigen::Upper : Eigen::Lower;
+    if (cfg & 2) compute_on_o<S, Eigen::RowMajor>(f, c, uplo, garbage, shift, mem); else compute_on_o<S, Eigen::ColMajor>(f, c, uplo, garbage, shift, mem);
+}
+template <class S> struct Snap { int info = -1; std::vector<long> perm; std::vector<std::pair<long, long>> permc; std::vector<S> data;
+    bool same(const Snap& o) const { return info == o.info && perm == o.perm && permc == o.permc && same_bits(data, o.data); } };
+template <class S> static Snap<S> snap(const Spectra::BKLDLT<S>& f) { Snap<S> s; s.info = (int) f.info(); s.perm = SpectraVerifAccess::perm(f); s.permc = SpectraVerifAccess::permc(f); s.data = SpectraVerifAccess::data(f); return s; }
+template <class S> static std::vector<S> solve_with(const Spectra::BKLDLT<S>& f, const Case& c) {
+    typedef Eigen::Matrix<S, Eigen::Dynamic, 1> Vec; Vec b(c.n); for (int i = 0; i < c.n; i++) b[i] = Tr<S>::mk(c.b[i], c.bim[i]);
+    Vec x = f.solve(b); return std::vector<S>(x.data(), x.data() + c.n);
+}
+static double max_row_sum(const Case& c) { double R = 0; for (int i = 0; i < c.n; i++) { double s = 0; for (int j = 0; j < c.n; j++) s += std::hypot(c.a(i, j), c.ai(i, j)); R = std::max(R, s); } return R; }
+
+// residual of x for (A - shift I) x = b in the working precision of the oracle; returns the ratio to n eps (|A - sI| |x| + |b|), -1 if x is not finite
+template <class S> static LD resid_ratio(const Case& c, double shift, const std::vector<S>& xs) {
+    typedef typename Tr<S>::W W; typedef typename Tr<S>::R R; const int n = c.n; const LD eps = (LD) std::numeric_limits<R>::epsilon();
+    Eigen::Matrix<W, Eigen::Dynamic, Eigen::Dynamic> A(n, n); Eigen::Matrix<W, Eigen::Dynamic, 1> x(n), b(n);
+    for (int i = 0; i < n; i++) for (int j = 0; j < n; j++) { S v = Tr<S>::mk(c.a(i, j), c.ai(i, j)); A(i, j) = W(v); if (i == j) A(i, j) -= W((LD) (R) shift); }
+    for (int i = 0; i < n; i++) { x[i] = W(xs[i]); b[i] = W(Tr<S>::mk(c.b[i], c.bim[i])); if (!(std::abs(x[i]) <= std::numeric_limits<LD>::max())) return -1; }
+    LD res = (A * x - b).norm(), bound = n * eps * (A.norm() * x.norm() + b.norm());
+    return bound > 0 ? res / bound : (res == 0 ? 0 : 1e30L);
+}
+
+struct HStep { Case c; int cfg = 0; bool garb = false; double shift = 0; const char* what = ""; };
+
+static std::vector<HStep> gen_history(const Case& c, uint64_t seed, bool thorough) {
+    Rng r(seed, 12, (uint64_t) c.idx); std::vector<HStep> h;
+    HStep s1; s1.c = c; s1.cfg = (int) r.below(4); s1.garb = r.coin(0.3); s1.shift = c.shift; s1.what = "first"; h.push_back(s1);
+    HStep s2; s2.cfg = (int) r.below(4); s2.garb = r.coin(0.3);
+    switch ((int) r.below(5)) {
+    case 0: case 1: s2.c = c; s2.shift = (r.coin() ? 1.0 : -1.0) * (1.0 + 2.0 * max_row_sum(c)); s2.what = "same-matrix-far-shift"; break;     // strictly diagonally dominant: plain 1x1 pivots
+    case 2: s2.c = c; s2.shift = c.shift + r.sym(); s2.what = "same-matrix-near-shift"; break;
+    case 3: { long j = (long) r.below(1000000); if (j % 10 == 9) j -= (long) r.range(1, 9); s2.c = gen_case(seed, j, thorough, c.n); s2.c.idx = c.idx; s2.shift = s2.c.shift; s2.what = "other-matrix-same-size"; break; }
+    default: { long j = (long) r.below(1000000); s2.c = gen_case(seed, j, thorough); s2.c.idx = c.idx; s2.shift = s2.c.shift; s2.what = "other-size"; break; }
+    }
+    h.push_back(s2);
+    HStep s3;
+    if (r.coin(0.5)) { s3 = s1; s3.what = "back-to-first"; }
+    else { s3.c = s2.c; s3.cfg = (int) r.below(4); s3.garb = false; s3.shift = (r.coin() ? 1.0 : -1.0) * (1.0 + 2.0 * max_row_sum(s2.c)); s3.what = "far-shift"; }
+    h.push_back(s3);
+    return h;
+}
+
+template <class S> static void history(const Case& c0, uint64_t seed, const std::string& tier, Out& out) {
+    const std::string sc = Tr<S>::name();
+    std::vector<HStep> h = gen_history(c0, seed, tier == "thorough");
+    Spectra::BKLDLT<S> obj;                                 // ONE object for the whole history
+    const double alpha = (1.0 + std::sqrt(17.0)) / 8.0;
+    std::string rq = std::string("hist ") + Enc<S>::tag() + " " + Enc<S>::real(alpha), rs; long entries = 0;
+    Snap<S> prev;
+    for (size_t k = 0; k < h.size(); k++) {
+        const HStep& s = h[k]; const int n = s.c.n; std::vector<S> mem, memf;
+        std::string rj = "{\"harness\":\"c10\",\"seed\":" + str(seed) + ",\"idx\":" + str(c0.idx) + ",\"tier\":\"" + tier + "\",\"part\":\"hist\",\"scalar\":\"" + sc + "\",\"step\":" + str(k) + ",\"what\":\"" + s.what + "\",\"n\":" + str(n) + ",\"cfg\":" + str(s.cfg) + "}";
+        compute_on<S>(obj, s.c, s.cfg, s.garb, s.shift, mem);
+        Snap<S> got = snap(obj);
+        Spectra::BKLDLT<S> fresh; compute_on<S>(fresh, s.c, s.cfg, s.garb, s.shift, memf);
+        Snap<S> ref = snap(fresh);
+        out.count("hist_compute_" + sc); out.count(std::string("hist_step_") + s.what); out.count("hist_info_" + str(got.info));
+        if (k > 0) {   // coverage of what would make stale members visible
+            out.count(prev.perm.size() == got.perm.size() ? "hist_prev_same_size" : "hist_prev_other_size"); if (prev.info != 0) out.count("hist_prev_failed");
+            bool sens = false; if (prev.perm.size() == got.perm.size()) for (size_t i = 0; i < got.perm.size(); i++) if (got.perm[i] == (long) i && prev.perm[i] != (long) i) sens = true;
+            if (sens) out.count("hist_stale_perm_sensitive");      // an entry m_perm[i] that this compute leaves at its reset value i held something else before
+        }
+        if (!got.same(ref))
+            out.fail("reuse-differs-from-fresh", sc + ": compute() #" + str(k + 1) + " (" + s.what + ", n=" + str(n) + ", shift " + str(s.shift) + ") on a used BKLDLT object differs from the same call on a fresh object: info " + str(got.info) + " vs " + str(ref.info) + (got.perm != ref.perm ? ", m_perm differs" : "") + (got.permc != ref.permc ? ", m_permc differs" : "") + (!same_bits(got.data, ref.data) ? ", packed data differ" : ""), rj);
+        rq += " C " + str(n) + " " + str((s.cfg & 1) ? 2 : 1) + " " + str((s.cfg & 2) ? 1 : 0) + " " + Enc<S>::real(s.shift);
+        for (const S& v : mem) rq += " " + Enc<S>::in(v);
+        entries += (long) n * n;
+        rs += std::string(rs.empty() ? "" : " | ") + "C " + str(got.info) + " 1 P";
+        for (long p : got.perm) rs += " " + str(p);
+        { std::string a; for (auto& ab : got.permc) a += (a.empty() ? "" : " ") + str(ab.first) + ":" + str(ab.second); rs += " Q " + a + "."; }
+        rs += " D"; for (const S& v : got.data) rs += " " + Enc<S>::out(v);
+        if (got.info != 0 && got.info != 3) out.fail("status-other", sc + ": info() = " + str(got.info) + " after compute #" + str(k + 1) + " on a used object", rj);
+        if (!got.same(ref)) break;      // already reported; solve() on members that belong to different factorizations may read out of bounds
+        if (got.info == 0) {
+            std::vector<S> x = solve_with<S>(obj, s.c);
+            std::vector<S> xf = ref.info == 0 ? solve_with<S>(fresh, s.c) : std::vector<S>();
+            out.count("hist_solve_" + sc);
+            if (ref.info == 0 && !same_bits(x, xf)) out.fail("reuse-differs-from-fresh", sc + ": solve() after compute() #" + str(k + 1) + " (" + s.what + ", n=" + str(n) + ") on a used BKLDLT object differs from a fresh object", rj);
+            LD ratio = resid_ratio<S>(s.c, s.shift, x);
+            if (ratio >= 0) { g_max["hist_resid_ratio_" + sc] = std::max(g_max["hist_resid_ratio_" + sc], ratio);
+                if (!(ratio <= C_RES)) out.fail("residual", sc + ": compute() #" + str(k + 1) + " (" + s.what + ") on a used BKLDLT object reports Successful but the residual is " + str((double) ratio) + " n eps (|A-sI||x|+|b|) > " + str((double) C_RES) + " n eps (...), n=" + str(n) + " shift " + str(s.shift), rj); }
+            else out.count("hist_nonfinite_solution_" + sc);
+            rq += " S"; for (int i = 0; i < n; i++) rq += " " + Enc<S>::in(Tr<S>::mk(s.c.b[i], s.c.bim[i]));
+            rs += " | S 1 X"; for (const S& v : x) rs += " " + Enc<S>::out(v);
+        }
+        prev = got;
+    }
+    if (entries <= 1800) { out.corr(rq, rs); out.count("corr_hist_" + sc); }
+}
+
 // ------------------------------------------------------------------ wrappers (real double)
 template <int Uplo, int Flags> static void wrappers(const Case& c, const Result<double>& ref, uint64_t seed, const std::string& tier, Out& out, int cfg) {
     typedef Eigen::Matrix<double, Eigen::Dynamic, Eigen::Dynamic, Flags> Mat;
@@ -225,9 +351,61 @@ template <int Uplo, int Flags> static void wrappers(const Case& c, const Result<
         if ((got == "ok") != (ref.info == 0) || got == "throw other") out.fail("wrapper-status", "SymShiftInvert::set_shift: " + got + " although BKLDLT::info() = " + str(ref.info), rj);
         if (got == "ok") { op.perform_op(b.data(), y.data()); std::vector<double> yy(y.data(), y.data() + n); if (!same_bits(yy, ref.x)) out.fail("wrapper-solve", "SymShiftInvert::perform_op (B = I) differs from BKLDLT::solve", rj); }
     }
+    {   // ---- history on ONE DenseSymShiftSolve object (part "whist")
+        typedef Spectra::DenseSymShiftSolve<double, Uplo, Flags> Op;
+        Op op(M);
+        const double alpha = (1.0 + std::sqrt(17.0)) / 8.0;
+        const double s_case = c.shift, s_ok = -(1.0 + 2.0 * max_row_sum(c));      // A - s_ok I strictly diagonally dominant, positive definite
+        std::string rq = "whist " + str(n) + " " + str(Uplo == Eigen::Upper ? 2 : 1) + " " + str(Flags == Eigen::RowMajor ? 1 : 0) + " " + str(dbits(alpha)), rs;
+        for (int i = 0; i < n * n; i++) rq += " " + str(dbits(M.data()[i]));
+        int stepno = 0; bool last_ok = false; double cur = 0;
+        auto rjw = [&](const char* ev) { return "{\"harness\":\"c10\",\"seed\":" + str(seed) + ",\"idx\":" + str(c.idx) + ",\"tier\":\"" + tier + "\",\"part\":\"whist\",\"scalar\":\"double\",\"cfg\":" + str(cfg) + ",\"n\":" + str(n) + ",\"step\":" + str(stepno) + ",\"event\":\"" + ev + "\"}"; };
+        auto add = [&](const std::string& s) { rs += (rs.empty() ? "" : " | ") + s; };
+        // what a fresh factorization says about this shift
+        auto fresh_info = [&](double sigma) { Spectra::BKLDLT<double> f; f.compute(M, Uplo, sigma); return (int) f.info(); };
+        // shadow of the wrapper's private m_solver: ONE BKLDLT object that receives the same compute() calls in the same order
+        Spectra::BKLDLT<double> shadow; bool shadow_consistent = true;
+        auto event = [&](char ev, double sigma) {           // 'T' set_shift, 'E' SymEigsShiftSolver constructor
+            stepno++; std::string got = "ok";
+            try {
+                if (ev == 'T') op.set_shift(sigma);
+                else { Spectra::SymEigsShiftSolver<Op> eigs(op, 1, 2, sigma); (void) eigs; }
+            } catch (const std::invalid_argument&) { got = "throw std::invalid_argument"; } catch (...) { got = "throw other"; }
+            { shadow.compute(M, Uplo, sigma); Spectra::BKLDLT<double> f; f.compute(M, Uplo, sigma); shadow_consistent = snap(shadow).same(snap(f));
+              if (!shadow_consistent) out.fail("reuse-differs-from-fresh", "DenseSymShiftSolve history, event #" + str(stepno) + ": the wrapper's BKLDLT member, factorizing for sigma = " + str(sigma) + " after earlier shifts, holds members that differ from a fresh factorization (m_perm / m_permc / packed data); n=" + str(n), rjw("set_shift")); }
+            const int fi = fresh_info(sigma); const bool must_throw = fi != 0 || (c.expect_singular && sigma == s_case);
+            const std::string evn = ev == 'T' ? "set_shift" : "SymEigsShiftSolver(op, 1, 2, sigma)";
+            out.count(std::string("whist_") + (ev == 'T' ? "set_shift" : "eigs_ctor") + (must_throw ? "_singular" : "_regular"));
+            if (got == "throw other") out.fail("wrapper-history-status", "DenseSymShiftSolve history, event #" + str(stepno) + " " + evn + ": unexpected exception type", rjw(evn.c_str()));
+            else if (must_throw && got == "ok")
+                out.fail("wrapper-history-status", "DenseSymShiftSolve history, event #" + str(stepno) + ": " + evn + " with sigma = " + str(sigma) + " returned normally although A - sigma I has an exactly zero pivot (fresh BKLDLT::info() = " + str(fi) + "); n=" + str(n), rjw(evn.c_str()));
+            else if (!must_throw && got != "ok")
+                out.fail("wrapper-history-status", "DenseSymShiftSolve history, event #" + str(stepno) + ": " + evn + " with sigma = " + str(sigma) + " threw although a fresh BKLDLT reports Successful; n=" + str(n), rjw(evn.c_str()));
+            rq += std::string(" ") + ev + " " + str(dbits(sigma)); add(got);
+            last_ok = got == "ok"; cur = sigma;
+        };
+        auto perform = [&]() {                               // only after a set_shift that returned normally
+            if (!last_ok || !shadow_consistent) return;      // inconsistent members: already reported, solving with them may read out of bounds
+            stepno++; op.perform_op(b.data(), y.data()); std::vector<double> yy(y.data(), y.data() + n);
+            Spectra::BKLDLT<double> f; f.compute(M, Uplo, cur); Eigen::VectorXd xf = f.solve(b); std::vector<double> xx(xf.data(), xf.data() + n);
+            bool fin = true, finf = true; for (double v : yy) if (!std::isfinite(v)) fin = false; for (double v : xx) if (!std::isfinite(v)) finf = false;
+            out.count("whist_perform_op");
+            if (!fin && (finf || (int) f.info() != 0)) out.fail("wrapper-nonfinite", "DenseSymShiftSolve history, event #" + str(stepno) + ": perform_op returns non-finite values after set_shift(" + str(cur) + ") returned normally; n=" + str(n), rjw("perform_op"));
+            else if (!same_bits(yy, xx)) out.fail("wrapper-solve", "DenseSymShiftSolve history, event #" + str(stepno) + ": perform_op after set_shift(" + str(cur) + ") differs from BKLDLT::solve on a fresh factorization; n=" + str(n), rjw("perform_op"));
+            if (fin) { LD ratio = resid_ratio<double>(c, cur, yy); g_max["whist_resid_ratio"] = std::max(g_max["whist_resid_ratio"], ratio);
+                if (!(ratio <= C_RES)) out.fail("residual", "DenseSymShiftSolve history, event #" + str(stepno) + ": perform_op after set_shift(" + str(cur) + ") has residual " + str((double) ratio) + " n eps (|A-sI||x|+|b|); n=" + str(n), rjw("perform_op")); }
+            rq += " P"; for (int i = 0; i < n; i++) rq += " " + str(dbits(b[i]));
+            std::string a = "X"; for (double v : yy) a += " " + fb(v); add(a);
+        };
+        event('T', s_case); event('T', s_case); perform();
+        event('T', s_ok); perform();
+        event('T', s_case);
+        if (n >= 2) { event('E', s_case); perform(); }
+        if (n * n <= 1800) { out.corr(rq, rs); out.count("corr_whist"); }
+    }
 }
 
-static std::string fb(double x) { return std::isnan(x) ? std::string("nan") : str(dbits(x)); }
+
 
 static void one_case(const Case& c, uint64_t seed, const std::string& tier, Out& out, bool corr) {
     Rng r(seed, 11, (uint64_t) c.idx);
@@ -249,6 +427,7 @@ static void one_case(const Case& c, uint64_t seed, const std::string& tier, Out&
     Result<double> plain = run_cfg<double>(c, cfg, false);
     switch (cfg) { case 0: wrappers<Eigen::Lower, Eigen::ColMajor>(c, plain, seed, tier, out, cfg); break; case 1: wrappers<Eigen::Upper, Eigen::ColMajor>(c, plain, seed, tier, out, cfg); break;
                    case 2: wrappers<Eigen::Lower, Eigen::RowMajor>(c, plain, seed, tier, out, cfg); break; default: wrappers<Eigen::Upper, Eigen::RowMajor>(c, plain, seed, tier, out, cfg); }
+    switch ((int) (c.idx % 3)) { case 0: history<double>(c, seed, tier, out); break; case 1: history<float>(c, seed, tier, out); break; default: history<CD>(c, seed, tier, out); }
     if (!corr) return;
     // ---- correspondence request: exactly the memory the class was given
     const double alpha = (1.0 + std::sqrt(17.0)) / 8.0;
@@ -322,6 +501,7 @@ int main(int argc, char** argv) {
         Case c = gen_case(a.seed, idx, a.thorough());
         { std::ofstream lc(a.out + "/lastcase.txt"); lc << replay_json(c, a.seed, a.tier, "all", -1) << "\n"; }
         one_case(c, a.seed, a.tier, out, true);
+        if (out.nfail) out.oracle.flush();
     }
     for (auto& kv : g_max) out.counters["max_milli_" + kv.first] = (long) std::min((LD) 1e15L, kv.second * 1000);
     out.finish();
